@@ -292,6 +292,8 @@ MANIFEST = dict(
     level_note=("Exact real arithmetic, not IEEE. alpha>0, step>0, weights>=0 (zero included); MCP step*weight<gamma; SCAD "
                 "gamma>2 and step<gamma-1 with gamma from a small catalogue (shrink rule); group/row dimension <= 2; SLOPE "
                 "n<=2 (3 thorough); block MCP/SCAD directions from a catalogue of unit vectors. Lemmas trusted: convexity => "
-                "first-order optimality is global; radial reduction for penalties of the row norm. L0.5, L2/3, log-sum "
-                "prox and the experimental Pinball/SqrtQuadratic prox are not yet covered."),
+                "first-order optimality is global; radial reduction for penalties of the row norm. Log-sum prox: only the "
+                "convex regime alpha*step <= eps^2 (algebraic stationarity); its non-convex regime (threshold = root of a "
+                "transcendental function located by bisection; also where the rounding defect F34 lived) is outside the "
+                "encodable fragment. L0.5, L2/3 and the experimental Pinball/SqrtQuadratic prox are not covered here."),
 )
